@@ -16,6 +16,8 @@ Agreement of the real parser with `refParse` is checked by the REFPARSE/TREECHK 
 -/
 import Garnish.Spec.RefParse
 import Garnish.Lemmas.RefParse
+import Garnish.Lemmas.RefParseUnique
+import Garnish.Lemmas.RefParseInorder
 namespace Garnish.Props.C02
 open Garnish Garnish.Gen Garnish.Model.Parser Garnish.Spec
 
